@@ -186,9 +186,13 @@ def applyTail (ddo1 : DDO) (n : Node) (e1 : Enc) (err1 : Bool) : DDO × Node × 
   let e2 := applyAF ddo1 class31 e1
   let af := applyAFList ddo1 class31 e1 n.af
   let w := applyWidth ddo1 n class31 e2
-  -- `bufr_set_descriptor_afd` → `bufr_set_value_af`: an existing value without AF gets one
-  let afW := if afApplies ddo1 class31 e1 && n.val.isSome && n.afW == 0 then listSumN ddo1.afList else n.afW
-  (w.2.1, { n with flags := { n.flags with class31 := class31 }, enc := w.1, af := af, afW := afW }, err1 || w.2.2)
+  -- `bufr_set_descriptor_afd` → `bufr_set_value_af`: an existing value gets the associated field the
+  -- descriptor now asks for, unless it has it already (layouts are compared by total width here)
+  let renew := afApplies ddo1 class31 e1 && n.val.isSome && n.afW != listSumN ddo1.afList
+  let afW := if renew then listSumN ddo1.afList else n.afW
+  let afBits := if renew then 0 else n.afBits
+  (w.2.1, { n with flags := { n.flags with class31 := class31 }, enc := w.1, af := af, afW := afW, afBits := afBits },
+   err1 || w.2.2)
 
 /-- `bufr_apply_tables2node(ddo, bsq, tmplt, node, &errcode)` for descriptors outside the bitmap
 machinery.  Returns the new state, the node with its encoding recomputed, and `true` when
